@@ -89,6 +89,12 @@ GapCat(R, k, p, thr) ==
 IdleSum(R, s, cat, thr) ==
     LET ks == { k \in IdleKernels(R, s) : Pred(R, k) # {} /\ GapCat(R, k, CHOOSE p \in Pred(R, k) : TRUE, thr) = cat }
     IN SumSet(ks, [k \in ks |-> k.ts - End(CHOOSE p \in Pred(R, k) : TRUE)])
+\* beyond the listed property: count / min / max / total of the idle intervals of a stream and category
+IdleGapKernels(R, s, cat, thr) == { k \in IdleKernels(R, s) : Pred(R, k) # {} /\ GapCat(R, k, CHOOSE p \in Pred(R, k) : TRUE, thr) = cat }
+GapOf(R, k) == k.ts - End(CHOOSE p \in Pred(R, k) : TRUE)
+IdleStatRow(R, s, cat, thr) == LET ks == IdleGapKernels(R, s, cat, thr) IN
+    [count |-> Cardinality(ks), min |-> SetMin({ GapOf(R, k) : k \in ks }), max |-> SetMax({ GapOf(R, k) : k \in ks }),
+     total |-> SumSet(ks, [k \in ks |-> GapOf(R, k)])]
 StreamSpanMinusBusy(R, s) == Span(Ivs(IdleKernels(R, s))) - Measure(Ivs(IdleKernels(R, s)))
 (***************************************************************************)
 (* Beyond the listed properties: time spent at or above a queue length m,  *)
